@@ -166,6 +166,7 @@ def check(prog, rep, tier):
     # ---------------------------------------------------------------- R06.l
     from .c09 import mask_rule
     mask_rule(prog, rep, 'R06.l')
+    quad_padding(prog, rep)
 
     # ---------------------------------------------------------------- R06.k
     nfk, lks = common.unguarded_table_lookups(prog, lambda fn: (
@@ -416,3 +417,27 @@ def element_layouts(prog, rep):
         else:
             rep.bad('R06.d', key, file=fn.file, line=fn.node.lineno, func=qual,
                     found='one element encodes as %s' % best, expected=exp, key=key)
+
+
+
+def quad_padding(prog, rep):
+    """The IPv4 prefix decoder pads the received octets (0..4 of them) to a dotted quad: a list padding `[x] * k`
+    must supply four elements, the /0 route arrives with no octet at all."""
+    f = prog.func(UPD + '.parse_prefix_list')
+    pads = []
+    for n in ast.walk(f.node):
+        if isinstance(n, ast.BinOp) and isinstance(n.op, ast.Mult):
+            k = prog.try_fold(n.right, f.module, f.cls)
+            lst = n.left
+            if isinstance(k, int) and (isinstance(lst, ast.List) or (isinstance(lst, ast.Call) and src_of(lst.func) == 'list')):
+                pads.append((n, k))
+    key = 'quad-padding'
+    short = [(n, k) for n, k in pads if k < 4]
+    if short:
+        n, k = short[0]
+        rep.bad('R06.l', key, file=f.file, line=n.lineno, func=f.qualname,
+                found='the octet list is padded with %s (%d elements): a /0 route, which carries no octet, is rendered with '
+                      '%d octets instead of four' % (src_of(n), k, k), expected='padding of four', key=key)
+    else:
+        rep.ok('R06.l', key, file=f.file, line=f.node.lineno, nontrivial=bool(pads),
+               found='%d list padding(s), each of at least four elements' % len(pads))
